@@ -429,6 +429,11 @@ func genKappa(r *gen.Rand) (float64, string) {
 		return 1 + (r.Float()-0.5)*math.Pow(10, -float64(r.Range(3, 13))), "near-1"
 	case 4:
 		return float64(r.Range(2, 10)), "integer"
+	case 5:
+		if r.Chance(0.3) {
+			// far outside the usual range, still valid: the slow eigen mode of the normalised matrix is ~ 1/kappa
+			return r.PickF([]float64{1e3, 1e5, 1e7, 1e-3, 1e-5}), "extreme"
+		}
 	}
 	return logUniform(r, 0.05, 50), "random"
 }
@@ -515,6 +520,20 @@ func genDNA(r *gen.Rand, model string) (p dnaParams, classes []string) {
 				p.Rates[i] = genRate(r)
 			}
 			kc = "random"
+		}
+	}
+	if pc == "extremely-skewed" {
+		// extreme rate ratios are not combined with extremely skewed frequencies: the unchanged code itself then loses
+		// 2e-9 on a row sum (conditioning of the decomposition; met at seed 7), which would be a false alarm
+		mild := func(k float64) float64 {
+			if k > 50 || (k < 0.05 && k != 0) {
+				return logUniform(r, 0.05, 50)
+			}
+			return k
+		}
+		p.Kappa, p.Kappa1, p.Kappa2 = mild(p.Kappa), mild(p.Kappa1), mild(p.Kappa2)
+		for i := range p.Rates {
+			p.Rates[i] = mild(p.Rates[i])
 		}
 	}
 	if kc != "" {
@@ -874,6 +893,30 @@ func protPoint(c *mon.Case, tb protTable, user []float64, byName bool, gamma boo
 			return point{}, false
 		}
 		c.Count("prot:refused-frequencies-then-init")
+	}
+	if c.R.Chance(0.3) {
+		// the object served another parameter point before (the successive alignments of one input re-initialise one
+		// model object): first other user frequencies or the model's own, then the point under test
+		var first []float64
+		// (InitModel(nil) means "the frequencies the object holds": after user frequencies it is not "the model's own"
+		// any more, so a point with model frequencies is only preceded by another InitModel(nil))
+		if c.R.Bool() && arg != nil {
+			first = make([]float64, 20)
+			tot := 0.0
+			for i := range first {
+				first[i] = 0.01 + c.R.Float()
+				tot += first[i]
+			}
+			for i := range first {
+				first[i] /= tot
+			}
+		}
+		if e0 := pm.InitModel(first); e0 != nil {
+			c.Failf(tb.name+":unexpected-error", "%s\nfirst InitModel: %v", desc, e0)
+			return point{}, false
+		}
+		desc += " (object initialised once before, with other frequencies)"
+		c.Count("prot:initialised-twice")
 	}
 	if err = pm.InitModel(arg); err != nil {
 		c.Failf(tb.name+":unexpected-error", "%s\nInitModel: %v", desc, err)
